@@ -52,17 +52,24 @@ def ptRoutes (r : Reg) (pt : Nat) : List Route := r.routes.filter (fun rt => rt.
 /-- routes registered as provisional -/
 def provRoutes (r : Reg) : List Route := r.routes.filter (fun rt => rt.provisional)
 
+/-- the packet carries a MID (valid UTF-8) that nobody registered: it names a media section without
+a receiver, so it identifies nobody and must not be handed to another section's receiver -/
+def MidUnknown (r : Reg) (p : Pkt) : Prop :=
+  ∃ m, extOf p r.midExt = some m ∧ utf8Valid m = true ∧ lookup m r.byMid = none
+
 /-- The property's chain and nothing else: "the one identified by its RID or MID header extension,
-else by SSRC, else by an unambiguous payload type" — else nobody (dropped).  The code's fifth rule,
+else by SSRC, else by an unambiguous payload type" — else nobody (dropped); a MID that
+names a section nobody registered identifies nobody and stops the chain (dropped).  The code's fifth rule,
 the single provisional listener, is NOT part of this specification. -/
 inductive Selects (r : Reg) (p : Pkt) : Option (Lid × Via) → Prop
   | rid (l : Lid) : ridCand r p = some l → Selects r p (some (l, .rid))
   | mid (l : Lid) : ridCand r p = none → midCand r p = some l → Selects r p (some (l, .mid))
-  | ssrc (l : Lid) : ridCand r p = none → midCand r p = none → lookup p.ssrc r.bySsrc = some l →
-      Selects r p (some (l, .ssrc))
-  | pt (l : Lid) : ridCand r p = none → midCand r p = none → lookup p.ssrc r.bySsrc = none →
-      UniqueOwner (ptRoutes r p.pt) l → Selects r p (some (l, .pt))
-  | nobody : ridCand r p = none → midCand r p = none → lookup p.ssrc r.bySsrc = none →
+  | unknownMid : ridCand r p = none → MidUnknown r p → Selects r p none
+  | ssrc (l : Lid) : ridCand r p = none → midCand r p = none → ¬ MidUnknown r p →
+      lookup p.ssrc r.bySsrc = some l → Selects r p (some (l, .ssrc))
+  | pt (l : Lid) : ridCand r p = none → midCand r p = none → ¬ MidUnknown r p →
+      lookup p.ssrc r.bySsrc = none → UniqueOwner (ptRoutes r p.pt) l → Selects r p (some (l, .pt))
+  | nobody : ridCand r p = none → midCand r p = none → ¬ MidUnknown r p → lookup p.ssrc r.bySsrc = none →
       (¬ ∃ l', UniqueOwner (ptRoutes r p.pt) l') → Selects r p none
 
 /-- FULL STATEMENT (does NOT hold for the code — `selection_is_priority_spec_witness`): the selection
@@ -74,6 +81,19 @@ private theorem stageRid_eq (r : Reg) (p : Pkt) : stageRid r p = ridCand r p := 
   unfold stageRid ridCand; cases extOf p r.ridExt <;> rfl
 private theorem stageMid_eq (r : Reg) (p : Pkt) : stageMid r p = midCand r p := by
   unfold stageMid midCand; cases extOf p r.midExt <;> rfl
+
+private theorem midMiss_iff (r : Reg) (p : Pkt) : midMiss r p = true ↔ MidUnknown r p := by
+  unfold midMiss MidUnknown
+  cases h : extOf p r.midExt with
+  | none => simp
+  | some m =>
+    constructor
+    · intro hm; simp at hm; exact ⟨m, rfl, hm.1, by simpa using hm.2⟩
+    · rintro ⟨m', hm', hu, hl⟩; cases hm'; simp [hu, hl]
+
+private theorem midUnknown_midCand (r : Reg) (p : Pkt) (h : MidUnknown r p) : midCand r p = none := by
+  obtain ⟨m, hm, hu, hl⟩ := h
+  simp [midCand, hm, hu, hl]
 
 /-- a provisional-only listener and a packet nothing identifies -/
 def regP : Reg := run Reg.empty [.regProv 0]
@@ -111,16 +131,21 @@ theorem selection_is_priority_spec_partial (r : Reg) (p : Pkt) :
       cases h2 : midCand r p with
       | some l => exact Or.inl ⟨l, .mid, true, rfl, by simp, .mid l h1 h2⟩
       | none =>
-        cases h3 : lookup p.ssrc r.bySsrc with
-        | some l => exact Or.inl ⟨l, .ssrc, false, rfl, by simp, .ssrc l h1 h2 h3⟩
-        | none =>
-          cases h4 : uniqueByPt r p.pt with
-          | some l => exact Or.inl ⟨l, .pt, true, rfl, by simp, .pt l h1 h2 h3 ((uniqueLoop_iff _ l).1 h4)⟩
+        by_cases hm : midMiss r p = true
+        · simp only [hm, if_true]
+          exact Or.inr (Or.inl ⟨trivial, .unknownMid h1 ((midMiss_iff r p).1 hm)⟩)
+        · have hu : ¬ MidUnknown r p := fun h => hm ((midMiss_iff r p).2 h)
+          simp only [hm]
+          cases h3 : lookup p.ssrc r.bySsrc with
+          | some l => exact Or.inl ⟨l, .ssrc, false, rfl, by simp, .ssrc l h1 h2 hu h3⟩
           | none =>
-            have n4 := (uniqueLoop_none_iff _).1 h4
-            cases h5 : singleProvisional r with
-            | some l => exact Or.inr (Or.inr ⟨l, rfl, .nobody h1 h2 h3 n4, (uniqueLoop_iff _ l).1 h5⟩)
-            | none => exact Or.inr (Or.inl ⟨rfl, .nobody h1 h2 h3 n4⟩)
+            cases h4 : uniqueByPt r p.pt with
+            | some l => exact Or.inl ⟨l, .pt, true, rfl, by simp, .pt l h1 h2 hu h3 ((uniqueLoop_iff _ l).1 h4)⟩
+            | none =>
+              have n4 := (uniqueLoop_none_iff _).1 h4
+              cases h5 : singleProvisional r with
+              | some l => exact Or.inr (Or.inr ⟨l, rfl, .nobody h1 h2 hu h3 n4, (uniqueLoop_iff _ l).1 h5⟩)
+              | none => exact Or.inr (Or.inl ⟨rfl, .nobody h1 h2 hu h3 n4⟩)
   refine ⟨?_, ?_, ?_, ?_, ?_⟩
   · intro l v b hs hv
     rcases key with ⟨l', v', b', hs', _, hsel⟩ | ⟨hn, _⟩ | ⟨l', hs', _⟩
@@ -138,7 +163,9 @@ theorem selection_is_priority_spec_partial (r : Reg) (p : Pkt) :
     · rw [hs] at hn; cases hn
     · rw [hs] at hs'; cases hs'; exact ⟨h1, h2⟩
   · intro a a' ha ha'
-    cases ha <;> cases ha' <;> simp_all
+    cases ha <;> cases ha' <;> (try rfl) <;> (try (exfalso; first
+      | (rename_i h _; exact absurd (midUnknown_midCand r p ‹MidUnknown r p›) (by simp_all))
+      | (exact absurd ‹MidUnknown r p› (by assumption)))) <;> simp_all
     all_goals exact uniqueOwner_unique _ _ _ (by assumption) (by assumption)
   · intro l v b h
     unfold select at h
@@ -147,12 +174,14 @@ theorem selection_is_priority_spec_partial (r : Reg) (p : Pkt) :
     · split at h
       · simp at h; obtain ⟨_, rfl, rfl⟩ := h; simp
       · split at h
-        · simp at h; obtain ⟨_, rfl, rfl⟩ := h; simp
+        · simp at h
         · split at h
           · simp at h; obtain ⟨_, rfl, rfl⟩ := h; simp
           · split at h
             · simp at h; obtain ⟨_, rfl, rfl⟩ := h; simp
-            · simp at h
+            · split at h
+              · simp at h; obtain ⟨_, rfl, rfl⟩ := h; simp
+              · simp at h
 
 /-- the registration shape `peer_connection.rs` produces (every receiver registers provisional + MID +
 payload types on ONE channel): section "0" = listener 0 {provisional, MID "0", PTs 96 97}, section
@@ -197,12 +226,19 @@ def regA : Reg := run Reg.empty [.setMidExt 3, .regMid [0x30] 0, .regPts [96] 0]
 /-- a packet that says MID "9" (registered by nobody) with payload type 96 -/
 def pktA : Pkt := { ssrc := 7, pt := 96, ext := some { profile := 0xBEDE, data := [0x30, 0x39, 0, 0] } }
 
-/-- witness 1 (`cross:mid-unregistered-falls-through`): a packet naming an unknown section falls
-through to the payload-type rule and is handed to section "0"'s receiver (which also learns its SSRC). -/
-theorem mid_packet_never_crosses_sections_witness : ¬ MidPacketNeverCrossesSections := by
-  intro h
-  have := h regA pktA [0x39] 0 .pt (by decide) (by decide) (by decide)
-  revert this; decide
+/-- **mid_packet_dropped_when_unregistered** (holds since the `fix:` commit "drop an inbound RTP packet
+whose MID no receiver registered"; before it `regA`/`pktA` was a counter-example — the packet fell
+through to the payload-type rule, was handed to section "0"'s receiver and bound its SSRC there):
+a packet whose MID names a section nobody registered is dropped and changes nothing, unless its RID
+identifies a receiver. -/
+theorem mid_packet_dropped_when_unregistered (r : Reg) (p : Pkt) (m : Bytes)
+    (hm : extOf p r.midExt = some m) (hu : utf8Valid m = true) (hreg : lookup m r.byMid = none)
+    (hrid : stageRid r p = none) : receive r p = (r, .dropped) := by
+  have h1 : stageMid r p = none := by simp [stageMid, hm, hu, hreg]
+  have h2 : midMiss r p = true := by simp [midMiss, hm, hu, hreg]
+  simp [receive, select, hrid, h1, h2]
+
+example : receive regA pktA = (regA, .dropped) := by decide
 
 /-- sections "0" (listener 0) and "1" (listener 1), each with a simulcast layer listener registered
 under the same RID "h" (RIDs are only unique within a section): the later registration wins -/
@@ -211,12 +247,12 @@ def regB : Reg :=
 /-- a packet of section "0", layer "h" -/
 def pktB : Pkt := { ssrc := 7, pt := 96, ext := some { profile := 0xBEDE, data := [0x30, 0x30, 0x40, 0x68] } }
 
-/-- witness 2 (`cross:rid-overrides-mid`): RID is looked up before MID and is not scoped by MID, so
+/-- witness (`cross:rid-overrides-mid`): RID is looked up before MID and is not scoped by MID, so
 section "0"'s packet is handed to section "1"'s receiver although its MID is registered. -/
-theorem mid_packet_never_crosses_sections_witness_rid :
-    ∃ r p m l v, extOf p r.midExt = some m ∧ utf8Valid m = true ∧ (receive r p).2 = .delivered l v ∧
-      lookup m r.byMid ≠ some l ∧ sectionOf r l ≠ none ∧ sectionOf r l ≠ some m :=
-  ⟨regB, pktB, [0x30], 1, .rid, by decide, by decide, by decide, by decide, by decide, by decide⟩
+theorem mid_packet_never_crosses_sections_witness : ¬ MidPacketNeverCrossesSections := by
+  intro h
+  have := h regB pktB [0x30] 1 .rid (by decide) (by decide) (by decide)
+  revert this; decide
 
 /-- **mid_packet_never_crosses_sections_partial**: the part that holds, for every registry and packet.
 If the packet's MID is REGISTERED (to `owner`), the packet is handed to `owner` — or, only when its
